@@ -212,6 +212,11 @@ func buildTopology(nCfg int) error {
 		case 1:
 			rc.BW, rc.BWMode = "16MB", "server"
 		}
+		// one https2http and one https2https route always run without encryption / compression: the long-lived
+		// connection cases need plugin routes that are free of the layered-connection finding
+		if i == 3 || i == 9 {
+			rc.Enc, rc.Comp = false, false
+		}
 		rc.BackendPort = pa.Get()
 		// dead routes: two plain, one plugin (fixed positions after the first ten)
 		if i == 10 || i == 11 || i == 12 {
